@@ -141,7 +141,8 @@ OpsNow ==
                             (* set_position also to a value beyond the length of the generated bars (3) *)
                             -> { ([n |-> k] @@ BarOp(nm, b, IF dt < 1000 THEN 1000 ELSE dt)) : k \in (IF nm \in {"set_position", "seek_to"} THEN {1, 5} ELSE {1}) }
                        (* a wrapped iterator over two items, exhausted by a for loop or by internal iteration (count, for_each: Iterator::fold) *)
-                       [] nm = "iter" -> { ([n |-> 2, how |-> hw] @@ BarOp(nm, b, dt)) : hw \in {"for", "count", "for_each"} }
+                       (* RESTRICTION: two items are two position updates; 2 ms apart so that the position bucket (C05) never withholds the redraw request of the last one *)
+                       [] nm = "iter" -> { ([n |-> 2, how |-> hw] @@ BarOp(nm, b, IF dt < 2000 THEN 2000 ELSE dt)) : hw \in {"for", "count", "for_each"} }
                        [] nm \in {"set_message", "set_prefix", "finish_with_message", "abandon_with_message"}
                             -> { ([m |-> Shape(s, base)] @@ BarOp(nm, b, dt)) : s \in MsgShapes }
                        [] nm \in {"println", "suspend"}
